@@ -4,7 +4,7 @@
 //   cfg = [W, variant, p0, p1, p2, p3, reset_hard, mode]
 //     W        1 assemble  2 build+serialize  3 compile  4 JIT runtime / allocator / virtmem  5 containers
 //     variant  W1-3: 0 x86-64, 1 AArch64      W4: 0 JitRuntime::add/release, 1 JitAllocator ops, 2 VirtMem ops
-//     mode     bit0: continue after the first error (W1/W2/W5 only; every later error is tolerated, no crash allowed)
+//     mode     bit0: continue after the first error (W1/W5 only; every later error is tolerated, no crash allowed)
 //   ops: [code<50, a, b, c]   program step of the workload (decoded robustly)
 //        [90, kind, k, from, size, site]  fault entry (size / site optional: only requests of that size / issued by the function
 //                             whose name hashes to `site` are counted by this entry): kind 0 arena (H1 hook) 1 heap (malloc/realloc/calloc) 2 virtual memory
@@ -78,7 +78,7 @@ static __attribute__((noinline)) void site_name(char* out, size_t out_size) {
     char fn[160] = "";
     if (!ra[i]) break;
     __sanitizer_symbolize_pc(ra[i], "%f", fn, sizeof fn);
-    if (!fn[0] || strstr(fn, "should_fail") || strstr(fn, "asmjit_verif_fail_alloc") || strstr(fn, "__wrap_") || strstr(fn, "alloc_oneshot") || strstr(fn, "new_oneshot") ||
+    if (!fn[0] || strstr(fn, "should_fail") || strstr(fn, "backtrace") || strstr(fn, "asmjit_verif_fail_alloc") || strstr(fn, "__wrap_") || strstr(fn, "alloc_oneshot") || strstr(fn, "new_oneshot") ||
         strstr(fn, "alloc_reusable") || strstr(fn, "Arena::") || strstr(fn, "Arena_") || strstr(fn, "new_node_t") || strstr(fn, "site_name") ||
         strstr(fn, "ArenaVector") || strstr(fn, "ArenaPool") || strstr(fn, "reserve_additional")) continue;
     snprintf(out, out_size, "%.150s", fn);
@@ -291,7 +291,6 @@ struct Decoded {
 
 static const char kKeyConstPoolShared[] = "constpool-shared-node-null-deref";
 
-static bool g_wa_init = false;
 static const char kKeyDeltaReloc[] = "embed-label-delta-oom-stale-reloc";
 static bool g_excl_delta = false;       // the key above is listed: relocate_to_base is not called after a failed embed_label_delta
 static uint64_t g_excluded_delta = 0;
@@ -508,7 +507,6 @@ public:
       reinit_done = code.reinit() == Error::kOk;
     }
     if (!reinit_done) code.reset(rp);
-    if (g_wa_init && !code.is_initialized()) { code._sections.reset(); code._sections_by_order.reset(); }   // development aid only (--wa_init=1)
     pool.reset();
     pool_arena.reset(rp);
     logger.clear();
@@ -572,7 +570,6 @@ public:
     }
     if (e->code() != &code) {
       Error aerr = code.attach(e);
-      if (g_wa_init && aerr != Error::kOk) e->_code = nullptr;   // development aid only (--wa_init=1)
       if (T.bad(aerr, "CodeHolder::attach")) return;
       if (aerr != Error::kOk || e->code() != &code) return;               // not attached: every emitter call would just report kNotInitialized
     }
@@ -668,9 +665,13 @@ public:
           uint8_t data[16];
           for (size_t i = 0; i < 16; i++) data[i] = uint8_t((uint64_t(a) * 0x9E3779B97F4A7C15ull) >> (i * 4));
           size_t off;
-          TRY(T, pool.add(data, 16, Out(off)), "ConstPool::add");       // descending sizes: the layout never has gaps
-          TRY(T, pool.add(data + 4, 8, Out(off)), "ConstPool::add");
-          TRY(T, pool.add(data + 1, 4, Out(off)), "ConstPool::add");
+          Error pe1 = pool.add(data, 16, Out(off));                      // descending sizes: the layout never has gaps
+          TRY(T, pe1, "ConstPool::add");
+          Error pe2 = pool.add(data + 4, 8, Out(off));
+          TRY(T, pe2, "ConstPool::add");
+          Error pe3 = pool.add(data + 1, 4, Out(off));
+          TRY(T, pe3, "ConstPool::add");
+          if (pe1 != Error::kOk || pe2 != Error::kOk || pe3 != Error::kOk) break;   // continue mode: a pool whose add() failed is not embedded
           Label pl = e->new_label();
           if (T.bad(pl.is_valid() ? Error::kOk : Error::kOutOfMemory, "new_label")) return;
           if (pl.is_valid()) TRY(T, e->embed_const_pool(pl, pool), "embed_const_pool");
@@ -915,6 +916,14 @@ public:
 
   void reset(bool) override {
     // JitAllocator::reset(kSoft) with more than one block is a recorded C09 finding (stale tree links): always hard here.
+    // An allocator whose construction failed has no re-initialisation API (it can only be destroyed): probe and recreate.
+    JitAllocator* a = rt ? &rt->allocator() : ja.get();
+    if (a && !unusable) {
+      JitAllocator::Span s;
+      Error e = a->alloc(Out(s), 64);
+      if (e == Error::kNotInitialized) unusable = true;
+      else if (e == Error::kOk) (void)a->release(s.rx());
+    }
     if (unusable) { rt.reset(); ja.reset(); unusable = false; }
     if (rt) rt->reset(ResetPolicy::kHard);
     if (ja) ja->reset(ResetPolicy::kHard);
@@ -1206,7 +1215,9 @@ static Decoded decode(const vh::Case& c) {
   d.variant = int(umod(cfg(1), d.W == 4 ? 3 : 2));
   for (int i = 0; i < 4; i++) d.p[i] = cfg(2 + size_t(i));
   d.hard = (cfg(6) & 1) != 0;
-  d.cont = (cfg(7) & 1) != 0 && (d.W == 1 || d.W == 2 || d.W == 5);
+  // continue mode only where every later call validates what it gets: the Assembler (W1) and the containers (W5). After a failed
+  // Builder::section()/bind() the harness's model of section order would no longer match the node list (W2 excluded).
+  d.cont = (cfg(7) & 1) != 0 && (d.W == 1 || d.W == 5);
   size_t nsteps = 0;
   for (const vh::Op& op : c.ops) {
     if (op.empty()) continue;
@@ -1305,8 +1316,10 @@ void vh_run(const vh::Case& c, vh::Ctx& ctx) {
     return;
   }
 
-  // ---- known crash classes excluded by construction ----
-  // (filled in by the sections below through g_exclusions)
+  // positions are interpreted modulo (requests of that kind in the clean run + 1): every generated plan lands inside the run or
+  // exactly one past its end (the "never reached" control); enumerated plans are unchanged by this
+  for (fi::Entry& e : d.plan) if (!e.site && !e.size) e.k %= (R.n[e.kind] + 1);
+  ptxt = plan_text(d);
 
   // ---- faulty run on fresh objects ----
   Res f;
@@ -1416,11 +1429,7 @@ rc::Gen<vh::Case> vh_gen(const vh::Opts&) {
     std::vector<vh::Op> ops;
     int sel = *vh::irange<int>(0, 99);
     // k distribution: mostly small (every workload has few heap / vm requests), sometimes large (arena)
-    auto kgen = [](int kind) -> int64_t {
-      int s = *vh::irange<int>(0, 99);
-      int hi = kind == 0 ? (s < 50 ? 60 : s < 85 ? 400 : 3000) : kind == 1 ? (s < 70 ? 8 : 40) : (s < 80 ? 6 : 30);
-      return *vh::irange<int>(0, hi);
-    };
+    auto kgen = [](int) -> int64_t { return *vh::irange<int>(0, 100000); };
     auto kindgen = []() -> int { int s = *vh::irange<int>(0, 99); return s < 50 ? 0 : s < 80 ? 1 : 2; };
     if (sel < 35) { int kd = kindgen(); ops.push_back(fault_op(kd, kgen(kd), 0)); }
     else if (sel < 55) { int kd = kindgen(); ops.push_back(fault_op(kd, kgen(kd), 1)); }
@@ -1441,7 +1450,14 @@ rc::Gen<vh::Case> vh_gen(const vh::Opts&) {
   return gen::apply([](std::vector<int64_t> cfg, std::vector<vh::Op> steps, std::vector<vh::Op> plan) {
       vh::Case c; c.cfg = std::move(cfg); c.ops = std::move(steps);
       if (c.ops.size() > 90) c.ops.resize(90);
-      for (auto& p : plan) c.ops.push_back(p);
+      // virtual-memory faults only exist in W4 (there they replace half of the arena entries); positions are folded into the
+      // request count of the instantiation's clean run by vh_run (k mod (count + 1))
+      int W = int(c.cfg[0]);
+      for (auto& p : plan) {
+        if (W != 4 && p[1] == 2) p[1] = 0;
+        else if (W == 4 && p[1] == 0 && (p[2] & 1)) p[1] = 2;
+        c.ops.push_back(p);
+      }
       return c; },
     cfgGen, gen::container<std::vector<vh::Op>>(stepGen), planGen);
 }
@@ -1469,14 +1485,16 @@ static std::set<std::string> g_enum_sites;
 
 static void build_enumeration(const vh::Opts& o) {
   g_enum = new std::vector<vh::Case>();
-  size_t ninst = o.is_thorough() ? size_t(o.geti("instances", 10)) : size_t(o.geti("instances", 1));
+  size_t ninst0 = o.is_thorough() ? size_t(o.geti("instances", 10)) : size_t(o.geti("instances", 1));
   for (int W = 1; W <= 5; W++) {
     if (!g_enable[W]) continue;
     int nvar = W == 4 ? 3 : W == 5 ? 1 : 2;
     for (int v = 0; v < nvar; v++) {
+      size_t ninst = W == 4 ? std::max<size_t>(ninst0, 4) : ninst0;   // W4: allocator option sets (plain, dual mapping, fill+pools, immediate release)
       for (size_t inst = 0; inst < ninst; inst++) {
         size_t nsteps = W == 3 ? 22 + 6 * (inst % 4) : W == 4 ? 14 + 4 * (inst % 4) : 30 + 8 * (inst % 5);
         vh::Case base = fixed_instance(W, v, inst + 1, nsteps);
+        if (W == 4) { static const int64_t opt[] = {0, 1, 1 | 2 | 4, 8 | 16}; base.cfg[2] = inst < 4 ? opt[inst] : base.cfg[2] % 32; }
         Decoded d = decode(base);
         RefInfo R;
         fi::S.tracking = false;
@@ -1493,7 +1511,7 @@ static void build_enumeration(const vh::Opts& o) {
             c.ops.push_back(fault_op(kind, int64_t(k), 0));
             g_enum->push_back(c);
             // continue-after-error variant for the emitter / container workloads (every 3rd fault point)
-            if ((W == 1 || W == 2 || W == 5) && k % 3 == 0 && k < R.n[kind]) { vh::Case c2 = c; c2.cfg[7] = 1; g_enum->push_back(c2); }
+            if ((W == 1 || W == 5) && k % 3 == 0 && k < R.n[kind]) { vh::Case c2 = c; c2.cfg[7] = 1; g_enum->push_back(c2); }
           }
           // "every request issued by one function fails" (persistent failure of one allocation site), from its first and from its middle request
           for (auto& kv : sites[kind]) {
@@ -1560,7 +1578,6 @@ void vh_init(const vh::Opts& o, vh::Ctx& ctx) {
   if (only) for (int w = 1; w <= 5; w++) g_enable[w] = (only == w);
   g_lsan_every = uint64_t(o.geti("lsan", 1));
   fi::g_trace_fail = o.geti("trace", 0) != 0;
-  g_wa_init = o.geti("wa_init", 0) != 0;
 #ifdef C15_HAVE_W4
   warm_up_process_caches();
 #endif
